@@ -140,6 +140,9 @@ const NEXT_RUN_SEP: &str = "\n#---next-run-on-the-returned-context---\n";
 enum Job {
     Text(String),
     Lib(String, Vec<(String, String)>),
+    /// `test_file` on a file with this content (the full SDK; the content comes from a pool of
+    /// harmless lines: function definitions of every shape, assignments, asserts)
+    TestFile(String),
 }
 
 fn run_job(job: Job) -> String {
@@ -148,6 +151,20 @@ fn run_job(job: Job) -> String {
             let _ = duckscript::parser::parse_text(&text);
             let halt = guarded_halt(HALT_MS);
             let _ = duckscript::runner::run_script(&text, Context::new(), Some(quiet_env(Some(halt))));
+            "ok".to_string()
+        }
+        Job::TestFile(content) => {
+            static N: std::sync::atomic::AtomicUsize = std::sync::atomic::AtomicUsize::new(0);
+            let n = N.fetch_add(1, std::sync::atomic::Ordering::SeqCst);
+            let file = std::env::temp_dir().join(format!("duck-c07-testfile-{}-{}.ds", std::process::id(), n));
+            if std::fs::write(&file, &content).is_err() {
+                return "NO-TEMP-FILE".to_string();
+            }
+            let mut ctx = crate::sdkenv::sdk_context();
+            ctx.variables.insert("f".to_string(), file.to_string_lossy().to_string());
+            let halt = guarded_halt(HALT_MS);
+            let _ = duckscript::runner::run_script("r = test_file ${f}\nr2 = test_file ${f} test_simple\n", ctx, Some(quiet_env(Some(halt))));
+            let _ = std::fs::remove_file(&file);
             "ok".to_string()
         }
         Job::Lib(script, vars) => {
@@ -1002,6 +1019,24 @@ impl Prop for C07Prop {
         out
     }
     fn generate(&self, rng: &mut Rng, _tier: Tier) -> Case {
+        if rng.chance(1, 40) {
+            // a test file for `test_file`: function definitions of every shape (names, annotation
+            // only, annotation + name, no argument, two arguments), bodies from harmless lines
+            const HEADS: [&str; 14] = ["fn test_simple", "fn <scope> test_scoped", "fn <scope>", "function <helper>", "fn", "fn test_a b", "fn helper", "function test_long_name_1", "fn <scope> <again>", "fn test_", "fn <>", "fn <scope> helper2", "fn \"\"", "fn ${x}"];
+            const BODY: [&str; 9] = ["value = set 1", "assert_eq ${value} 1", "assert true", "assert false", "return", "return ok", "x = not false", "# comment", "test_simple"];
+            let mut lines: Vec<String> = vec![];
+            for _ in 0..1 + rng.below(4) {
+                lines.push(rng.pick_s(&HEADS).to_string());
+                for _ in 0..rng.below(3) {
+                    lines.push(format!("    {}", rng.pick_s(&BODY)));
+                }
+                if !rng.chance(1, 10) {
+                    lines.push(rng.pick_s(&["end", "end", "end_fn", "end_function"]).to_string());
+                }
+            }
+            let text = lines.join("\n");
+            return Case { req: format!("c07 testfile {}", enc_str(&text)), in_domain: true, nontrivial: true, tags: vec!["test-file"] };
+        }
         if rng.chance(4, 7) {
             let (s, mut tags) = crate::props::c08::gen_text(rng);
             tags.clear();
@@ -1046,6 +1081,22 @@ impl Prop for C07Prop {
                 None => "BAD-REQUEST".to_string(),
             },
             ["c07", "child", name] => run_probe(name),
+            ["c07", "testfile", t] => match dec_str(t) {
+                Some(content) => {
+                    // (every HANG leaves its helper thread behind: after a few the stream stops
+                    // running, the answer stays a failure)
+                    static HANGS: std::sync::atomic::AtomicUsize = std::sync::atomic::AtomicUsize::new(0);
+                    if HANGS.load(std::sync::atomic::Ordering::SeqCst) >= 4 {
+                        return "HANG (test_file hung four times in this run; not repeated)".to_string();
+                    }
+                    let r = run_guarded(Job::TestFile(content));
+                    if r == "HANG" {
+                        HANGS.fetch_add(1, std::sync::atomic::Ordering::SeqCst);
+                    }
+                    r
+                }
+                None => "BAD-REQUEST".to_string(),
+            },
             _ => "BAD-REQUEST".to_string(),
         }
     }
